@@ -68,8 +68,9 @@ def as_same_except(eng, st, storage, tid):
     ho = ctx.pre_heap.get(h, st.heap0.get(h))[d.term]
     vo = ctx.pre_heap.get(v, st.heap0.get(v))[d.term]
     k = z3.Int("ase_k")
+    other = z3.BoolVal(True) if tid.kind is KNone else (k != tid.term)
     return SV(KBool, z3.And(
-        qforall([k], z3.And(hn[k] == ho[k], z3.Implies(k != tid.term, vn[k] == vo[k])), patterns=[hn[k]]),
+        qforall([k], z3.And(hn[k] == ho[k], z3.Implies(other, vn[k] == vo[k])), patterns=[hn[k]]),
     ))
 
 
@@ -103,11 +104,11 @@ R.spec(B, "BaseStorage.set_trial_state_values", trusted=True,
        requires=["state != TrialState.WAITING"],
        cases=[
            case("missing", when="trial_id not in self.g_state", raises="KeyError",
-                ensures=["as_same_except(self, -1)"]),
+                ensures=["as_same_except(self, None)"]),
            case("finished", when="finished(self.g_state[trial_id])", raises="UpdateFinishedTrialError",
-                ensures=["as_same_except(self, -1)"]),
+                ensures=["as_same_except(self, None)"]),
            case("lost", when="state == TrialState.RUNNING and self.g_state[trial_id] != TrialState.WAITING",
-                returns="False", ensures=["as_same_except(self, -1)"]),
+                returns="False", ensures=["as_same_except(self, None)"]),
            case("ok", returns="True", ensures=["self.g_state[trial_id] == state", "as_same_except(self, trial_id)"]),
        ],
        ensures_all=["self.g_ssv_calls == old(self.g_ssv_calls) + 1", "self.g_ssv_tid == trial_id",
@@ -129,3 +130,78 @@ R.spec("optuna/samplers/_base.py", "BaseSampler.after_trial", trusted=True,
             "(finished trials are frozen by the storage contract)")
 R.spec("optuna/samplers/_base.py", "BaseSampler.reseed_rng", trusted=True,
        cases=[case("raises", when="nondet()", raises="Exception"), case("ok")])
+
+
+# --- ghost bookkeeping for C02: asks, runs, callback invocations --------------------------------
+R.schema("BaseStorage", dict(R.schemas["BaseStorage"], g_ask_calls="int", g_last_asked="int", g_runs="int",
+                             g_cb_calls="int"))
+
+
+@R.specfunc()
+def as_monotone_except(eng, st, storage, tid):
+    """Every trial other than `tid` still exists exactly if it existed, and its state is unchanged or
+    went RUNNING -> FAIL (stale-trial sweep)."""
+    ctx = eng.spec_stack[-1]
+    d = eng.get_field(st, storage, "g_state")
+    h, v, n = eng.dnames(d.kind)
+    hn, vn = eng.harr(st, h)[d.term], eng.harr(st, v)[d.term]
+    ho = ctx.pre_heap.get(h, st.heap0.get(h))[d.term]
+    vo = ctx.pre_heap.get(v, st.heap0.get(v))[d.term]
+    k = z3.Int("ame_k")
+    other = z3.BoolVal(True) if tid.kind is KNone else (k != tid.term)
+    return SV(KBool, qforall([k], z3.Implies(other, z3.And(
+        hn[k] == ho[k], z3.Or(vn[k] == vo[k], z3.And(vo[k] == 0, vn[k] == 3)))), patterns=[hn[k]]))
+
+
+@R.specfunc()
+def new_trials_finished(eng, st, storage):
+    """Every trial that did not exist at entry is finished; trials that existed still exist."""
+    ctx = eng.spec_stack[-1]
+    d = eng.get_field(st, storage, "g_state")
+    h, v, n = eng.dnames(d.kind)
+    hn, vn = eng.harr(st, h)[d.term], eng.harr(st, v)[d.term]
+    h0 = st.heap0.get(h, ctx.pre_heap.get(h))[d.term]
+    k = z3.Int("ntf_k")
+    return SV(KBool, qforall([k], z3.And(z3.Implies(h0[k], hn[k]),
+                                         z3.Implies(z3.And(hn[k], z3.Not(h0[k])), z3.And(vn[k] != 0, vn[k] != 4))),
+                             patterns=[hn[k]]))
+
+
+ASK_MOD = AS_MOD + ["F:BaseStorage.g_ask_calls", "F:BaseStorage.g_last_asked"]
+GHOST_MOD = ASK_MOD + ["F:BaseStorage.g_runs", "F:BaseStorage.g_cb_calls"]
+
+R.spec("optuna/study/study.py", "Study.ask", trusted=True,
+       types={"fixed_distributions": "Any"},
+       cases=[
+           case("raises", when="nondet()", raises="Exception",
+                ensures=["self._storage.g_ask_calls == old(self._storage.g_ask_calls)",
+                         "as_monotone_except(self._storage, None)"]),
+           case("ok", ensures=[
+               "self._storage.g_ask_calls == old(self._storage.g_ask_calls) + 1",
+               "self._storage.g_last_asked == result._trial_id",
+               "result._trial_id in self._storage.g_state",
+               "self._storage.g_state[result._trial_id] == TrialState.RUNNING",
+               # either a new trial or a claimed WAITING one
+               "as_monotone_except(self._storage, result._trial_id)",
+               "result.study is self", "result.storage is self._storage",
+           ]),
+       ],
+       modifies=ASK_MOD + ["F:_ThreadLocalStudyAttribute.cached_all_trials"],
+       note="assumed: ask returns a RUNNING trial (new, or a claimed WAITING one) and touches no other trial; "
+            "an exception raised by sampler.before_trial AFTER the trial was created is outside the claim")
+
+R.spec("optuna/storages/_heartbeat.py", "is_heartbeat_enabled", trusted=True, cases=[case("ok")])
+R.spec("optuna/storages/_heartbeat.py", "fail_stale_trials", trusted=True,
+       cases=[case("raises", when="nondet()", raises="Exception", ensures=["as_monotone_except(study._storage, None)"]),
+              case("ok", ensures=["as_monotone_except(study._storage, None)"])],
+       modifies=AS_MOD, note="assumed here, contract proved under C19")
+R.spec("optuna/storages/_heartbeat.py", "get_heartbeat_thread", trusted=True,
+       returns_kind="ref[BaseHeartbeatThread]", cases=[case("ok")])
+R.spec("optuna/study/study.py", "Study._log_completed_trial", trusted=True, cases=[case("ok")],
+       note="logging only")
+
+
+@R.specfunc("__with__:BaseHeartbeatThread")
+def _with_heartbeat(eng, st, cm, item, node):
+    # start()/join() of the heartbeat thread do not touch trial states; __exit__ returns None
+    eng.exec_block(st, node.body)
